@@ -56,8 +56,9 @@ pub fn build_text(c: &Value) -> String {
     lines.push(String::new());
     lines.push("- it [i](2)".into());
     lines.push("  more [j](2)".into());
-    lines.push("- k [wra".into());
-    lines.push("  pped](2)".into());
+    // (the link starts late on its first line and ends early on its second)
+    lines.push("- kkkkkkkk [wra".into());
+    lines.push("  p](2)".into());
     lines.push(String::new());
     lines.push("> [q](2)".into());
     lines.push(String::new());
